@@ -164,7 +164,8 @@ impl Engine for Truth {
                 return out;
             }
             (_, Ok(Err(EncErr::Options(e)))) | (Ok(Err(EncErr::Options(e))), _) => {
-                out.fail(format!("options-rejected:{}", strip_digits(&e)), e);
+                let _ = e;
+                out.label("options-refused");
                 return out;
             }
             (_, Ok(Err(e))) | (Ok(Err(e)), _) => {
@@ -214,55 +215,51 @@ impl Engine for Truth {
         if d.pcm != pcm.data {
             out.fail("independent-decode-mismatch", "audio differs");
         }
-        // finalize may append the final (short) frame and must then rewrite only the metadata
-        // region: every write after the seek back to the stream start stays inside it, every
-        // write before that seek is a pure append
+        // finalize may append the final (short) frame and rewrite the metadata region; whatever
+        // seeks it uses, no write may touch the audio frames that were already out, they must still
+        // be where they were, and the output must end where the appended frames end
         let first_frame_abs = (start + d.first_frame) as u64;
-        let mut end_so_far: u64 = 0;
-        for op in &rec.ops[..mark_ops] {
-            if let Op::Write { at, len } = op {
-                end_so_far = end_so_far.max(*at + *len as u64);
+        let before = sw_a.snapshot();
+        let end_before = mark_len as u64;
+        {
+            let a = &before.data;
+            let lo = (first_frame_abs as usize).min(a.len());
+            if a.len() > rec.data.len() || a[lo..] != rec.data[lo..a.len()] {
+                out.fail("finalize-changed-audio", format!("frame bytes {lo}..{} present before finalize differ afterwards", a.len()));
+            }
+            match refdec::decode_partial(&a[start.min(a.len())..], &Cfg::LENIENT) {
+                Ok((da, _)) if !da.frames.is_empty() && (start + da.first_frame) as u64 != first_frame_abs => {
+                    out.fail("finalize-moved-first-frame", format!("first frame at {} before finalize, at {first_frame_abs} after", start + da.first_frame));
+                }
+                _ => {}
             }
         }
-        end_so_far = end_so_far.max(mark_len as u64);
-        let fin = &rec.ops[mark_ops..];
-        match fin.iter().rposition(|op| matches!(op, Op::Seek { .. })) {
-            None => out.fail("finalize-never-seeks-back", "finalize issued no seek to rewrite the header"),
-            Some(si) => {
-                if let Op::Seek { to } = &fin[si] {
-                    if *to != start as u64 {
-                        out.fail("finalize-seeks-to-wrong-offset", format!("finalize seeks to {to}, the stream starts at {start}"));
-                    }
+        let mut end_so_far = end_before;
+        let mut rewrote = false;
+        for op in &rec.ops[mark_ops..] {
+            if let Op::Write { at, len } = op {
+                let (lo, hi) = (*at, *at + *len as u64);
+                if *len == 0 {
+                    continue;
                 }
-                for op in &fin[..si] {
-                    if let Op::Write { at, len } = op {
-                        if *at != end_so_far {
-                            out.fail("finalize-frame-not-appended", format!("write of {len} bytes at {at}, end of output is {end_so_far}"));
-                            break;
-                        }
-                        end_so_far += *len as u64;
-                    }
-                }
-                let mut rewrote = false;
-                for op in &fin[si..] {
-                    if let Op::Write { at, len } = op {
-                        rewrote = true;
-                        if *at < start as u64 || *at + *len as u64 > first_frame_abs {
-                            out.fail(
-                                "finalize-writes-outside-metadata",
-                                format!("header rewrite wrote {len} bytes at offset {at}; metadata occupies {start}..{first_frame_abs}"),
-                            );
-                            break;
-                        }
-                    }
-                }
-                if !rewrote {
-                    out.fail("finalize-wrote-nothing", "no header write was issued during finalize");
-                }
-                if rec.data.len() as u64 != end_so_far {
-                    out.fail("finalize-changed-length", format!("output is {} bytes, frames end at {end_so_far}", rec.data.len()));
+                if lo >= start as u64 && hi <= first_frame_abs {
+                    rewrote = true;
+                } else if lo == end_so_far {
+                    end_so_far = hi;
+                } else {
+                    out.fail(
+                        "finalize-writes-outside-metadata",
+                        format!("finalize wrote {len} bytes at offset {at}; metadata occupies {start}..{first_frame_abs}, audio written so far ends at {end_so_far}"),
+                    );
+                    break;
                 }
             }
+        }
+        if rewrote {
+            out.label("header-rewritten-at-finalize");
+        }
+        if rec.data.len() as u64 != end_so_far {
+            out.fail("finalize-changed-length", format!("output is {} bytes, frames end at {end_so_far}", rec.data.len()));
         }
         // seek table
         let defined = check_seektable(&d, file, &mut out);
@@ -418,8 +415,9 @@ pub const RULE: &str = "cases = C01's PCM x options space crossed with seek-tabl
 total declared or discovered at finalize, padding absent / too small by 1-3 / exact / ample by 1-2 / arbitrary, stream starting after a \
 junk prefix, extra metadata blocks, a sink that accepts every write in full or only up to n bytes per call; long streams (66 000 - 200 000 samples, blocks up to 16384) with seconds-based tables; plus one stream of 932 068 frames (more than a seek table can hold) with one point per frame and an \
 undeclared total. Oracle (independent parser over a recording writer): STREAMINFO total/channels/rate/depth/block size/min-max frame \
-size/MD5 are true; every defined seek point names first sample, offset and length of a real frame, ascending, placeholders last; writes \
-issued during finalize stay inside the metadata region, the output length does not change, the junk prefix is intact; \
+size/MD5 are true; every defined seek point names first sample, offset and length of a real frame, ascending, placeholders last; every write \
+issued during finalize either stays inside the metadata region or appends at the end of the audio (whatever seeks are used), the frame bytes \
+that were out before finalize are unchanged and the first frame has not moved, the output ends where the frames end, the junk prefix is intact; \
 generate_seektable(file, same interval) yields the same defined points, in the same number unless the format's capacity cuts the written table. Non-trivial = >= 3 frames and a seek table with defined points. \
 Distinct = digest of the case.";
 
